@@ -5,6 +5,7 @@ cd "$(dirname "$0")"
 export GOFLAGS=-mod=mod GOPROXY=off GOSUMDB=off GOTOOLCHAIN=local
 mkdir -p .work evidence
 cp harness/go.sum.base harness/go.sum
-(cd lean && lake build Evl evldriver)
+(cd harness && go run ./cmd/gofacts -repo /repo -out ../lean/Evl/Generated)
+(cd lean && lake build Evl Evl.Props.C19Known evldriver)
 (cd harness && go build -tags verif -o ../.work/evh-setup ./cmd/evh && rm -f ../.work/evh-setup)
 echo setup-ok
